@@ -810,7 +810,7 @@ pub fn run(ctx: &mut Ctx) {
         }
         "C18" => {
             w_capacity_grid(ctx, tier);
-            w3_histories(ctx, tier.pick(60, 120_000, 1_500_000), tier.pick(15, 60, 300), tier.pick(200, 400, 900));
+            w3_histories(ctx, tier.pick(60, 600_000, 3_000_000), tier.pick(15, 60, 300), tier.pick(200, 400, 900));
             w4_hostile(ctx);
             w_growth(ctx, tier);
         }
